@@ -493,7 +493,8 @@ ABSTRACT_EXPRESS = ("ENTITY abs_e\n  ABSTRACT SUPERTYPE OF (ONEOF (abs_s));\n  a
                     "ENTITY dp_e;\n  dp_st : st_t;\n  dp_sl : LIST [0:?] OF st_t;\n  dp_so : OPTIONAL st_t;\n  dp_1 : s1;\n  dp_1b : s1b;\n"
                     "  dp_2 : OPTIONAL s2;\n  dp_3 : s3;\n  dp_4 : s4;\n  dp_l2 : LIST [0:?] OF s2;\n  dp_l3 : LIST [0:?] OF s3;\n"
                     "  dp_l4 : LIST [0:?] OF s4;\nEND_ENTITY;\n\n"
-                    "ENTITY dr_e;\n  dr_2 : s2r;\n  dr_3 : OPTIONAL s3r;\n  dr_l : LIST [0:?] OF s3r;\nEND_ENTITY;\n\n")
+                    "ENTITY dr_e;\n  dr_2 : s2r;\n  dr_3 : OPTIONAL s3r;\n  dr_l : LIST [0:?] OF s3r;\nEND_ENTITY;\n\n"
+                    "ENTITY nu_e;\n  nu_n : LIST [0:?] OF NUMBER;\n  nu_d : OPTIONAL LIST [0:?] OF nm_num;\n  nu_r : LIST [0:?] OF REAL;\nEND_ENTITY;\n\n")
 
 # enumeration whose items are closed under "proper prefix / extension / shares a prefix", in both declaration orders;
 # selects nested 1..4 deep with typed leaves of every underlying kind, and renamed selects (rs1, rs2) at two levels
@@ -503,7 +504,7 @@ DEEP_TYPES = ("TYPE st_t = ENUMERATION OF (draft, finaldraft, final, revision, f
               "TYPE s1 = SELECT (nm_len, nm_mass, nm_cnt); END_TYPE;\nTYPE s1b = SELECT (nm_lab, nm_flag, st_t); END_TYPE;\n"
               "TYPE s2 = SELECT (s1, s1b); END_TYPE;\nTYPE s3 = SELECT (s2, {T0}); END_TYPE;\nTYPE s4 = SELECT (s3, nm_log); END_TYPE;\n"
               "TYPE rs1 = s1; END_TYPE;\nTYPE s2r = SELECT (rs1, nm_lab); END_TYPE;\nTYPE rs2 = s2r; END_TYPE;\n"
-              "TYPE s3r = SELECT (rs2, nm_flag); END_TYPE;\n\n")
+              "TYPE s3r = SELECT (rs2, nm_flag); END_TYPE;\nTYPE nm_num = NUMBER; END_TYPE;\n\n")
 ST_ITEMS = ["DRAFT", "FINALDRAFT", "FINAL", "REVISION", "FI", "FINALE", "DECA", "DECI", "D"]
 LEAVES = {"NM_LEN": "real", "NM_MASS": "real", "NM_CNT": "int", "NM_LAB": "str", "NM_FLAG": "bool", "NM_LOG": "log",
           "ST_T": "enum:" + ".".join(ST_ITEMS)}
@@ -515,6 +516,7 @@ DEEP_KINDS = {"XENUM": "one:enum:" + ".".join(ST_ITEMS), "AGG_XENUM": "aggr:enum
               "SEL_S1": "one:sel:S1", "SEL_S1B": "one:sel:S1B", "SEL_S2": "one:sel:S2", "SEL_S3": "one:sel:S3", "SEL_S4": "one:sel:S4",
               "AGG_S2": "aggr:sel:S2", "AGG_S3": "aggr:sel:S3", "AGG_S4": "aggr:sel:S4",
               "SEL_S2R": "one:sel:S2R", "SEL_S3R": "one:sel:S3R", "AGG_S3R": "aggr:sel:S3R",
+              "AGG_NUM": "aggr:num", "AGG_DNUM": "aggr:num",
               "AGG2_STR": "aggr:gen", "AGG2_REAL": "aggr:gen", "AGG2_ENT": "aggr:gen", "AGG2_XENUM": "aggr:gen", "AGG3_STR": "aggr:gen"}
 
 
@@ -547,7 +549,9 @@ class SchemaX(G.Schema):
                                                               G.Attr("dp_l2", "AGG_S2", False), G.Attr("dp_l3", "AGG_S3", False),
                                                               G.Attr("dp_l4", "AGG_S4", False)]),
                                       G.Entity("dr_e", None, [G.Attr("dr_2", "SEL_S2R", False), G.Attr("dr_3", "SEL_S3R", True),
-                                                              G.Attr("dr_l", "AGG_S3R", False)])]
+                                                              G.Attr("dr_l", "AGG_S3R", False)]),
+                                      G.Entity("nu_e", None, [G.Attr("nu_n", "AGG_NUM", False), G.Attr("nu_d", "AGG_DNUM", True),
+                                                              G.Attr("nu_r", "AGG_REAL", False)])]
         G.Schema.__init__(self, base.name, ents, base.targets)
         self.abstract = ("abs_e",)
         self.derived = {"d_sub": {"d_a"}}
@@ -566,6 +570,9 @@ class SchemaX(G.Schema):
 
 
 _orig_gen_value = G.gen_value
+# set by the checks from the regenerated switch `numberElemReadsNumber` (decided from the source text): a source whose
+# RealNode reads NUMBER elements with ReadReal reports every integer-spelled element (finding agg:number-element-spelled-as-integer)
+NUMBER_ELEM_INT = False
 
 
 def _gen_value(rng, attr, schema, pool):
@@ -590,6 +597,10 @@ def _gen_value(rng, attr, schema, pool):
         if k == "AGG3_STR":
             return ("aggr", [("aggr", [row() for _ in range(rng.randint(0, 2))]) for _ in range(rng.randint(0, 2))])
         return ("aggr", [row() for _ in range(rng.randint(0, 3))])
+    if k in ("AGG_NUM", "AGG_DNUM"):
+        # elements of an aggregate of NUMBER: real and - when the source reads them with ReadNumber - integer spellings
+        one = lambda: gen_integer(rng) if (NUMBER_ELEM_INT and rng.random() < 0.5) else gen_real(rng)
+        return ("aggr", [("tok", one()) for _ in range(rng.randint(0, 4))])
     if k == "XENUM":
         return ("tok", "." + rng.choice(ST_ITEMS) + ".")
     if k == "AGG_XENUM":
@@ -721,7 +732,7 @@ STRING_DELIMS = ["'a)b;c'", "'x,y'", "'p)'", "'((q'", "'it''s;)'", "');#1=X('"]
 STRING_DELIM_KINDS = ("INTEGER", "DEF_INT", "REAL", "DEF_REAL", "NUMBER", "BOOLEAN", "LOGICAL", "ENUM", "XENUM", "BINARY", "ENTITY")
 
 
-def violations(rng, schema, pop, per_class=1, string_delims=False):
+def violations(rng, schema, pop, per_class=1, string_delims=False, missing_elem=False):
     """-> [Violation]; `insts` is the file content: Inst objects or raw text for the mutated instance"""
     out = []
     ids = [i.id for i in pop]
@@ -761,6 +772,29 @@ def violations(rng, schema, pop, per_class=1, string_delims=False):
             lit = STRING_DELIMS[rng.randrange(len(STRING_DELIMS))]
             out.append(Violation("wrong_kind_string_delims", pop[ii].id, replaced(ii, _set_val(pop[ii], pi, ai, ("tok", lit))),
                                  where(pop[ii], pi, ai, a) + ":" + re.sub(r"[^A-Za-z0-9#'.();,]", "", lit)[:8]))
+    if missing_elem:
+        # a delimiter where an element must stand: `(a,,b)`, `(a,)`, `(,a)`, `(/* c */,a)`, `(,)`
+        MISS_KINDS = ("AGG_INT", "AGG_REAL", "AGG_STR", "AGG_ENT", "AGG_ENTS", "AGG_BOOL", "AGG_LOG", "AGG_ENUM", "AGG_XENUM",
+                      "AGG_NUM", "AGG_DNUM", "AGG_SEL", "AGG_SELE", "AGG_S2", "AGG_S3", "AGG_S4")
+        for k, (ii, pi, ai, a) in enumerate(positions(lambda a, v, i: a.kind in MISS_KINDS and v[0] == "aggr")):
+            v = pop[ii].parts[pi][1][ai]
+            elems = [G.render_val(x) for x in v[1]]
+            shape = rng.randrange(5)
+            if not elems:
+                txt, shape = "(,)", 4
+            elif shape == 0:
+                j = rng.randrange(len(elems))
+                txt = "(" + ",".join(elems[:j + 1]) + ",," + ",".join(elems[j + 1:]) + ")" if j + 1 < len(elems) else "(" + ",".join(elems) + ",)"
+            elif shape == 1:
+                txt = "(" + ",".join(elems) + ",)"
+            elif shape == 2:
+                txt = "(," + ",".join(elems) + ")"
+            elif shape == 3:
+                txt = "(/* c */," + ",".join(elems) + ")"
+            else:
+                txt = "(" + ",".join(elems) + " , )"
+            out.append(Violation("missing_aggregate_element", pop[ii].id, replaced(ii, _set_val(pop[ii], pi, ai, ("tok", txt))),
+                                 where(pop[ii], pi, ai, a) + f":shape{shape}"))
     # wrong kind inside an aggregate
     for (ii, pi, ai, a) in positions(lambda a, v, i: a.kind in AGG_ELEM_WRONG and v[0] == "aggr" and len(v[1]) >= 1):
         v = pop[ii].parts[pi][1][ai]
